@@ -114,12 +114,12 @@ func (f FloatSchema) Serialize(d any) (any, error) {
 	if err != nil {
 		return data, err
 	}
-	if f.MinValue != nil && data < *f.MinValue {
+	if f.MinValue != nil && !(data >= *f.MinValue) {
 		return data, &ConstraintError{
 			Message: fmt.Sprintf("Must be at least %f", *f.MinValue),
 		}
 	}
-	if f.MaxValue != nil && data > *f.MaxValue {
+	if f.MaxValue != nil && !(data <= *f.MaxValue) {
 		return data, &ConstraintError{
 			Message: fmt.Sprintf("Must be at most %f", *f.MaxValue),
 		}
